@@ -82,6 +82,32 @@ func runRegistry(a *Analyzer, r *Results) {
 			}
 			ev := a.NewEval(e, r)
 			if isErrCtor(e.Args[1]) || e.Args[1].Key() != tNil.Key() {
+				// K1.exact: a refusal has one of the two specified reasons (a context for a live position is never refused:
+				// the round that needs it could not start)
+				k1exact := "the context registry refuses a request only after Shutdown or for a (height, view) older than the cancellation watermark: no other condition (size limits, rate limits, ...) can make it refuse the context a new round or a view needs"
+				// the refusal may be decided by a helper whose error is passed on: then each of the helper's own refusals is judged
+				if ct := unfreeze(e.Args[1]); ct.Op == "call" && a.calleeOf(ct) != nil && ev.Has(Ne(e.Args[1], tNil)) != nil {
+					g := a.calleeOf(ct)
+					roots := map[string]*Term{}
+					for i, p := range g.Params {
+						if i < len(ct.Args) {
+							roots[p.Name()] = ct.Args[i]
+						}
+					}
+					grets, gund := a.Returns(funcID(g), roots)
+					r.Undecided = append(r.Undecided, gund...)
+					for _, ge := range grets {
+						if len(ge.Args) != 1 || ge.Args[0].Key() == tNil.Key() {
+							continue
+						}
+						gev := a.NewEval(ge, r)
+						gev.RequireAny("K1.exact", props("C15", "C12", "C05"), k1exact, "",
+							[]*Atom{Truth(Field(vc, "shutdown"))}, []*Atom{Truth(older(hv, newest))})
+					}
+					continue
+				}
+				ev.RequireAny("K1.exact", props("C15", "C12", "C05"), k1exact, "",
+					[]*Atom{Truth(Field(vc, "shutdown"))}, []*Atom{Truth(older(hv, newest))})
 				continue
 			}
 			n++
@@ -568,6 +594,54 @@ func runLoops(a *Analyzer, r *Results) {
 			target := Struct("state.HeightView", []string{"height", "view"}, []*Term{Field(hv, "height"), Bin("+", Field(hv, "view"), Const("1"))})
 			ev.Require("K9.election", props("C15", "C14"), "on an election trigger for (h,v) the main loop cancels everything older than (h,v+1) before forwarding, and forwards only if (h,v+1) is still issuable", "",
 				Done(Call("state.CancelOlderThan", vc, target)), ErrNil(Ext(1, Call("state.For", vc, target))))
+			// K9.exact: whether a trigger is forwarded depends on its (height, view) only through the registry's own
+			// staleness test: no other comparison of the trigger's position drops it
+			{
+				hvK := hv.Key()
+				var extra []string
+				var check func(t *Term)
+				check = func(t *Term) {
+					if !t.ContainsKey(hvK) {
+						return
+					}
+					switch {
+					case t.Op == "and" || t.Op == "or" || (t.Op == "un" && t.Name == "!"):
+						for _, x := range t.Args {
+							check(x)
+						}
+						return
+					}
+					// the position may only flow into the registry calls (For / CancelOlderThan)
+					masked := t
+					okOnly := true
+					masked.Walk(func(x *Term) {
+						_ = x
+					})
+					var occ func(x *Term, inReg bool)
+					occ = func(x *Term, inReg bool) {
+						if x.Key() == hvK {
+							if !inReg {
+								okOnly = false
+							}
+							return
+						}
+						reg := inReg || (x.Op == "call" && (x.Name == "state.For" || x.Name == "state.CancelOlderThan"))
+						for _, y := range x.Args {
+							occ(y, reg)
+						}
+					}
+					occ(t, false)
+					if !okOnly {
+						extra = append(extra, PP(t))
+					}
+				}
+				for _, ct := range e.PathConds() {
+					check(unsnap(ct))
+				}
+				extra = dedupSorted(extra)
+				ev.Verdict("K9.exact", props("C15", "C05", "C19"), "an election trigger that reaches the main loop is dropped only when the context registry says its (height, view+1) is superseded: no other test of the trigger's position (remembered maxima, parity, ...) can swallow it, so the view it announces is always cancelled and the worker always hears about it", "",
+					len(extra) == 0, "the path to the forward also tests the trigger's position: "+strings.Join(extra, "; "))
+			}
 		case "leanhelix.blockWithProof":
 			nSync++
 			ev := a.NewEval(e, r)
@@ -1138,14 +1212,34 @@ func runTimer(a *Analyzer, r *Results) {
 	// function handed to time.AfterFunc and sends an ElectionTrigger (walk through the spawned closure, values only)
 	var sendEffs []*Effect
 	{
+		var timerWrites []*Effect
 		w := a.NewWalker(func(e *Effect) {
 			if e.Kind == "send" && e.VType == "interfaces.ElectionTrigger" {
 				sendEffs = append(sendEffs, e)
+			}
+			onTimer := false
+			for _, fr := range e.Path {
+				if strings.HasSuffix(fr.Site, "(timer)") {
+					onTimer = true
+				}
+			}
+			if onTimer && (e.Kind == "store" || e.Kind == "mapupdate") && strings.Contains(e.Name, "TimerBasedElectionTrigger.") {
+				timerWrites = append(timerWrites, e)
 			}
 		})
 		w.DescendSpawn = true
 		w.Run(reg, nil, nil)
 		r.Undecided = append(r.Undecided, w.Undecided...)
+		// T12: the registration state (timer handle, cancel channel, handler, armed pair) belongs to the worker side
+		// (RegisterOnElection / Stop): the timer goroutine only reads what it captured and never writes it back -
+		// an expired callback must not be able to wipe or overwrite the registration that replaced it
+		t12 := "the expiring timer's goroutine never writes the trigger's registration state (timer handle, cancel channel, handler, armed height/view): only RegisterOnElection and Stop do, so a late callback cannot wipe the registration that replaced it"
+		if len(timerWrites) == 0 {
+			r.Check("T12", props("C19", "C16"), t12, "none", a.P.Pos(reg.Pos()), true, "", "W")
+		}
+		for _, e := range timerWrites {
+			r.Check("T12", props("C19", "C16"), t12, e.Name, e.Pos(a), false, "the timer callback stores into "+e.Name+" ("+e.PathString()+")", "W")
+		}
 	}
 	if len(sendEffs) == 0 {
 		r.Undecided = append(r.Undecided, "election trigger: no send of an ElectionTrigger reachable from the timer callback (anchor)")
